@@ -716,3 +716,160 @@ def obl_context(check, thorough=False, budget_s=None):
         if worst[st] > worst[status]:
             status = st
     check.obligation(name, "mirsym", status, "%d paths; %d counterexample models" % (summ["paths"], len(vio)))
+
+
+# ------------------------------------------------------------------------- layout switch through the context (C04 / C11)
+
+def make_layout_switch(shape):
+    """A context created on layout file A, one key, the word finished, `update_engine` to layout file B (idle), the same key again - all from MIR,
+    `FixedMethod::new` and `Layout::parse` included. The two files are oracles at `Config::get_layout` / `serde_json::from_value`: A assigns a
+    text to the key, B assigns another text, an empty one, or nothing. After the switch the key emits exactly what B assigns."""
+    name, code, stem, kind = shape["row"]
+
+    def build(st, it):
+        prog = it.p
+        order = prog.structs["Config"]
+        cfgs = {}
+        for l in ("A", "B"):
+            vals = {"layout": SString([ord(ch) for ch in LAYOUTS[l]]), "database_dir": Opaque("PathBuf", ("db",)), "user_dir": Opaque("PathBuf", ("user",))}
+            for o in OPTS:
+                vals[o] = (o == "fixed_numpad")
+            cfgs[l] = struct_of(prog, "Config", vals)
+        ename = ("Key_%s_Normal" % stem) if kind == "key" else stem
+        va = [st.sym_char("a_val")]
+        entries = {"A": va, "B": None}
+
+        def get_layout(it2, args, callee):
+            from mirsym.values import some
+            c = args[0].get() if isinstance(args[0], Ref) else args[0]
+            path = "".join(chr(x) for x in c.fields[order.index("layout")].elems)
+            return some(Opaque("serde_json::Value", (path,)))
+
+        def from_value(it2, args, callee):
+            from mirsym.values import ok
+            v = args[0].get() if isinstance(args[0], Ref) else args[0]
+            which = "A" if v.payload and v.payload[0] == LAYOUTS["A"] else "B"
+            pairs = [[tuple(ord(ch) for ch in "Key_zz_Normal"), SString([0x78])]]
+            if which == "A":
+                pairs.append([tuple(ord(ch) for ch in ename), SString(list(va))])
+            else:
+                if "B_decided" not in entries:
+                    ab = z3.Bool("b_absent")
+                    ln = z3.BitVec("b_len", 8)
+                    k = it2.st.choose([ab, z3.And(z3.Not(ab), ln == 0), z3.And(z3.Not(ab), ln == 1)])
+                    entries["B_decided"] = True
+                    entries["B"] = None if k == 0 else ([] if k == 1 else [it2.st.sym_char("b_val")])
+                if entries["B"] is not None:
+                    pairs.append([tuple(ord(ch) for ch in ename), SString(list(entries["B"]))])
+            return ok(SMap("layout", pairs))
+        data = mk_data(prog, st)
+        it.env["overrides"] = {"Config::get_layout": get_layout, "from_value": from_value, "Data::new": lambda it2, args, callee: data}
+        st.ctx = dict(entries=entries, va=va, shape=shape)
+
+        def fn(n):
+            return prog.find_fn("RitiContext", n)
+
+        def run():
+            ctx = it.call_function(fn("new_with_config"), [Ref([cfgs["A"]], 0)])
+            box = [ctx]
+            r1 = it.call_function(fn("get_suggestion_for_key"), [Ref(box, 0), code, 0, 0])
+            it.call_function(fn("finish_input_session"), [Ref(box, 0)])
+            it.call_function(fn("update_engine"), [Ref(box, 0, True), Ref([cfgs["B"]], 0)])
+            r2 = it.call_function(fn("get_suggestion_for_key"), [Ref(box, 0), code, 0, 0])
+            return r1, r2
+        return run
+
+    def text_of(prog, r):
+        if isinstance(r, Agg) and r.kind == "adt:Suggestion" and r.variant == prog.enums["Suggestion"]["Single"]:
+            return r.fields[prog.enum_fields[("Suggestion", "Single")].index("suggestion")].elems
+        return None
+
+    def on_path(st, it, out):
+        prog = it.p
+        c = st.ctx
+        model = st.get_model()
+
+        def inputs(m):
+            b = c["entries"].get("B")
+            return dict(family="layout_switch", key=code, key_name=name, entry=("Key_%s_Normal" % stem) if kind == "key" else stem,
+                        layout_a=model_string(m, c["va"]), layout_b=(None if b is None else model_string(m, b)))
+
+        def pred(m):
+            if out[0] == "panic":
+                return dict(panic=out[1].message)
+            t2 = text_of(prog, out[1][1])
+            return dict(after_switch=None if t2 is None else model_string(m, t2))
+        if out[0] == "panic":
+            return [dict(kind="violation", clause="no_panic", inputs=inputs(model), predicted=pred(model))]
+        t1, t2 = text_of(prog, out[1][0]), text_of(prog, out[1][1])
+        b = c["entries"].get("B") or []
+        clauses = [("key_emits_what_the_layout_now_loaded_assigns", z3.And(seq_eq(t1, c["va"]) if t1 is not None and len(t1) == len(c["va"]) else z3.BoolVal(False),
+                                                                      (seq_eq(t2, b) if len(t2) == len(b) else z3.BoolVal(False)) if t2 is not None else z3.BoolVal(False))),
+                   ("cover:layout_switch", True)]
+        return eval_clauses(st, clauses, lambda cn, m: dict(kind="violation", clause=cn, inputs=inputs(m), predicted=pred(m)))
+    return build, on_path
+
+
+def layout_switch_native(vs):
+    """Native: fixed layout -> another fixed layout by update_engine (idle); keys the second file leaves out, blanks or re-assigns."""
+    from obl_fixed import PLANT_KEYS, PLANT_NAMES
+    a = {"Key_%s_Normal" % PLANT_NAMES[i]: v for i, v in enumerate(["ক", "খ", "গ", "ঘ"])}
+    a["Key_%s_AltGr" % PLANT_NAMES[0]] = "ঌ"
+    a["Num1"] = "১"
+    variants = [("leaves the keys out", {"Key_zz_Normal": "x"}), ("blanks the keys", dict({k: "" for k in a}, Key_zz_Normal="x")),
+                ("re-assigns the keys", dict({k: "চ" for k in a}, Key_zz_Normal="x"))]
+    scs = []
+    for label, b in variants:
+        steps = [{"op": "new", "ctx": 0, "config": {"layout_json": a, "opts": {"numpad": True}}}, {"op": "key", "ctx": 0, "key": PLANT_KEYS[0]}, {"op": "finish", "ctx": 0},
+                 {"op": "update", "ctx": 0, "config": {"layout_json": b, "opts": {"numpad": True}}}, {"op": "new", "ctx": 1, "config": {"layout_json": b, "opts": {"numpad": True}}}]
+        probes = [(PLANT_KEYS[i], 0) for i in range(4)] + [(PLANT_KEYS[0], 2), (0x004F, 0)]
+        marks = []
+        for k, m in probes:
+            for cx in (0, 1):
+                steps += [{"op": "key", "ctx": cx, "key": k, "mod": m}]
+                marks.append(len(steps) - 1)
+                steps += [{"op": "finish", "ctx": cx}]
+        scs.append((label, {"steps": steps}, marks))
+    for (label, sc, marks), r in zip(scs, run_replay([x[1] for x in scs])):
+        rr = r["results"]
+        if any("panic" in x for x in rr):
+            p = [x for x in rr if "panic" in x][0]
+            return sc, p, "switching from one fixed layout to another that %s: panic: %s" % (label, p["panic"])
+        for i in range(0, len(marks), 2):
+            x, y = rr[marks[i]].get("suggestion", {}), rr[marks[i + 1]].get("suggestion", {})
+            if x.get("text") != y.get("text"):
+                st2 = sc["steps"][marks[i]]
+                return sc, [rr[marks[i]], rr[marks[i + 1]]], ("a context switched by update_engine from one fixed layout to another that %s: key 0x%04X (modifier %d) emits %r; "
+                                                              "a context created on the second layout emits %r" % (label, st2["key"], st2.get("mod", 0), x.get("text"), y.get("text")))
+    return None
+
+
+def obl_layout_switch(check, budget_s=None):
+    from common import keyname_spec, published_keys
+    spec = keyname_spec()
+    rows = [(n, c, spec[n][1], spec[n][2]) for n, c in published_keys() if n in spec and spec[n][2] in ("key", "numpad")]
+    rows = [rows[i] for i in range(0, len(rows), 9)] + [r for r in rows if r[3] == "numpad"][:2]
+    shapes = [dict(row=r) for r in rows]
+    check.bounds["layout_switch"] = dict(keys="%d layout keys (every ninth of the table and two number-pad keys)" % len(rows), files="layout A assigns one symbolic code point to the key; layout B assigns another, an empty text, or nothing",
+                                         history="new_with_config(A), key, finish, update_engine(B) while idle, key")
+    records, errors, summ = msym.run_shapes(check, "layout_switch", shapes, make_layout_switch, budget_s=budget_s)
+    name = "layout_switch"
+    vio = [r for r in records if r["kind"] == "violation" and (getattr(check, "only_clauses", None) is None or r["clause"] in check.only_clauses)]
+    covers = set(r["name"] for r in records if r["kind"] == "cover")
+    if errors:
+        check.obligation(name, "mirsym", "inconclusive", "executor gave up: " + "; ".join(sorted(set(errors))[:3]))
+        return
+    if "cover:layout_switch" not in covers:
+        check.obligation(name, "mirsym", "inconclusive", "vacuity: no path completed the switch")
+        return
+    if not vio:
+        check.obligation(name, "mirsym", "held", "%d paths; after the switch every key emits what the second file assigns" % summ["paths"])
+        return
+    found = layout_switch_native(vio)
+    if found is None:
+        check.obligation(name, "mirsym", "inconclusive", "counterexample not re-found natively: %s (%s)" % (json.dumps(vio[0]["inputs"], ensure_ascii=False)[:300], vio[0]["clause"]))
+        return
+    sc, obs, what = found
+    check.stats["traces_validated"] += 1
+    st = check.finding("layout switch: " + vio[0]["clause"], what, dict(scenario=sc, observed=obs, solver_counterexample=vio[0]["inputs"]))
+    check.obligation(name, "mirsym", st, "%d paths; %d counterexample models" % (summ["paths"], len(vio)))
